@@ -19,7 +19,8 @@ RULE = ("Expression trees as in C01 plus law-shaped variants of each tree (x&y v
         "(x|y)&x) so that the same set is reached along different operator paths; every value returned by the "
         "parser or an operator is one shape event; all values of a case are compared pairwise (== vs same admitted "
         "set). Non-trivial/distinct: structure of a result that is a union, or a pair of different objects "
-        "admitting the same set.")
+        "admitting the same set."
+        " Denotation oracle: is_empty()/is_any()/== of the variant roots against the set the expression denotes (model over the leaf sets), incl. &-free and |-free De Morgan paths; large trees (unions of 40-50 ranges).")
 ASSUMPTIONS = [
     "structural reading of specifier objects; Version total order from packaging",
     "canonical = empty | one non-degenerate range | >=2 ascending, disjoint, non-touching, non-universal ranges",
